@@ -93,7 +93,7 @@ def run_path(args: dict):
         seq = tuple(choose.STATE.decisions)
         W.seqs.add(seq)
         if res.nontrivial:
-            W.nontrivial.add(seq if h.mode == "cs" else (seq, W.paths))
+            W.nontrivial.add(seq if (h.mode == "cs" and h.tree_check) else (seq, W.paths))
         if len(W.samples) < 3 and res.summary is not None:
             W.samples.append(
                 {
